@@ -201,6 +201,11 @@ pub fn install_panic_hook() {
     }));
 }
 
+/// make panics on the current thread quiet (for helper threads running a case)
+pub fn install_thread_quiet() {
+    QUIET.with(|q| *q.borrow_mut() = true);
+}
+
 /// Run `f`, converting a panic into `Err(message @ file:line)`.
 pub fn catch<R>(f: impl FnOnce() -> R) -> Result<R, String> {
     QUIET.with(|q| *q.borrow_mut() = true);
@@ -308,7 +313,15 @@ fn mix(seed: u64, a: u64, id: &str) -> u64 {
 /// Evaluate one case: panic capture + known-finding lookup.
 /// Returns (outcome-with-known-removed, raw failure if any, was_known)
 fn eval<P: Property>(case: &P::Case, known: &KnownFindings) -> (Outcome, Option<Failure>, bool) {
-    let out = match catch(|| P::check(case)) {
+    let t0 = std::time::Instant::now();
+    let r = catch(|| P::check(case));
+    if let Some(ms) = std::env::var("VERIF_SLOW_MS").ok().and_then(|v| v.parse::<u128>().ok()) {
+        let el = t0.elapsed().as_millis();
+        if el > ms {
+            eprintln!("SLOW {} ms: {}", el, serde_json::to_string(case).unwrap_or_default());
+        }
+    }
+    let out = match r {
         Ok(o) => o,
         Err(msg) => {
             if P::PANIC_IS_VIOLATION {
